@@ -505,6 +505,9 @@ class CommandPipeline:
             if stream:
                 try:
                     if stdout_has_buffer:
+                        # text the caller already wrote through the text
+                        # layer must reach the buffer first
+                        out_target.flush()
                         out_target.buffer.write(line)
                     else:
                         out_target.write(line.decode(encoding=enc, errors=err))
